@@ -89,7 +89,7 @@ def Effective (emb ext : Option Bytes) (c : Bytes) : Prop :=
   (emb = some c ∧ ∀ e, ext = some e → e = c) ∨ (emb = none ∧ ext = some c)
 
 /-- one signer info passed `SignerInfo.Verify` against `content` (`none`: skipDigests) with the bundled `certs` -/
-def SignerOK {C : Crypto} (H : Alg → Bytes → Bytes) (content : Option Bytes) (certs : List (Cert C))
+def SignerVerifyOK {C : Crypto} (H : Alg → Bytes → Bytes) (content : Option Bytes) (certs : List (Cert C))
     (si : SignerInfo C) (cert : Cert C) : Prop :=
   ∃ alg, si.digestAlg = some alg ∧
     findCert certs si.issuer si.serial = some cert ∧
@@ -97,6 +97,17 @@ def SignerOK {C : Crypto} (H : Alg → Bytes → Bytes) (content : Option Bytes)
       ∃ md, getMessageDigest (a :: l) = .ok md ∧ (∀ c, content = some c → md = H alg c) ∧
         SigAccepts C cert.pub alg si.sigAlg (H alg si.attrsBytes) si.sig) ∧
     (si.attrs.getD [] = [] → ∀ c, content = some c → SigAccepts C cert.pub alg si.sigAlg (H alg c) si.sig)
+
+/-- fix F31: with authenticated attributes present, the (signed) contentType attribute exists, is single-valued and
+    names `ct` -/
+def CtBound {C : Crypto} (ct : Bytes) (si : SignerInfo C) : Prop :=
+  ∀ a l, si.attrs = some (a :: l) → getContentType (a :: l) = .ok ct
+
+/-- one signer info passed one iteration of the loop of `SignedData.Verify`: `SignerInfo.Verify`, then the
+    contentType comparison with the eContentType `ct` -/
+def SignerOK {C : Crypto} (H : Alg → Bytes → Bytes) (ct : Bytes) (content : Option Bytes) (certs : List (Cert C))
+    (si : SignerInfo C) (cert : Cert C) : Prop :=
+  SignerVerifyOK H content certs si cert ∧ CtBound ct si
 
 theorem findCert_some {C : Crypto} (certs : List (Cert C)) (issuer serial : Bytes) (cert : Cert C)
     (h : findCert certs issuer serial = some cert) :
@@ -109,7 +120,7 @@ theorem findCert_some {C : Crypto} (certs : List (Cert C)) (issuer serial : Byte
 
 theorem signer_ok {C : Crypto} (H : Alg → Bytes → Bytes) (content : Bytes) (skip : Bool) (certs : List (Cert C))
     (si : SignerInfo C) (cert : Cert C) (h : verifySignerInfo H content skip certs si = .ok cert) :
-    SignerOK H (if skip then none else some content) certs si cert := by
+    SignerVerifyOK H (if skip then none else some content) certs si cert := by
   unfold verifySignerInfo at h
   split at h
   · cases h
@@ -165,12 +176,47 @@ theorem signer_ok {C : Crypto} (H : Alg → Bytes → Bytes) (content : Bytes) (
             exact hs _ (by simpa using hmd.symm)
     all_goals cases h
 
-theorem verifyAll_ok {C : Crypto} (H : Alg → Bytes → Bytes) (content : Bytes) (skip : Bool) (certs : List (Cert C))
+theorem verifyOne_ok {C : Crypto} (H : Alg → Bytes → Bytes) (ct : Option Bytes) (content : Bytes) (skip : Bool)
+    (certs : List (Cert C)) (si : SignerInfo C) (cert : Cert C) (h : verifyOne H ct content skip certs si = .ok cert) :
+    verifySignerInfo H content skip certs si = .ok cert ∧ ∀ t, ct = some t → CtBound t si := by
+  unfold verifyOne at h
+  split at h
+  · rename_i c hv
+    cases ct with
+    | none =>
+      simp only [Res.ok.injEq] at h
+      subst h
+      exact ⟨hv, by intro t ht; cases ht⟩
+    | some t =>
+      simp only at h
+      split at h
+      · rename_i hcs
+        simp only [Res.ok.injEq] at h
+        subst h
+        refine ⟨hv, ?_⟩
+        intro t' ht'
+        injection ht' with ht'
+        subst ht'
+        intro a l hal
+        unfold ctypeStage at hcs
+        simp only [hal, Option.getD_some] at hcs
+        split at hcs
+        · rename_i o ho
+          split at hcs
+          · rename_i heq
+            rw [ho, heq]
+          · cases hcs
+        all_goals cases hcs
+      all_goals cases h
+  all_goals cases h
+
+theorem verifyAll_ok {C : Crypto} (H : Alg → Bytes → Bytes) (ct : Option Bytes) (content : Bytes) (skip : Bool)
+    (certs : List (Cert C))
     (bad : Bool) (l : List (SignerInfo C)) (last : Option (Cert C × SignerInfo C)) (p : Cert C × SignerInfo C)
-    (h : verifyAll H content skip certs bad l last = .ok p) :
-    (∀ si ∈ l, ∃ cert, verifySignerInfo H content skip certs si = .ok cert) ∧
+    (h : verifyAll H ct content skip certs bad l last = .ok p) :
+    (∀ si ∈ l, ∃ cert, verifyOne H ct content skip certs si = .ok cert) ∧
     (l = [] → last = some p) ∧
-    (l ≠ [] → l.getLast? = some p.2 ∧ verifySignerInfo H content skip certs p.2 = .ok p.1) := by
+    (l ≠ [] → l.getLast? = some p.2 ∧ verifyOne H ct content skip certs p.2 = .ok p.1) := by
   induction l generalizing last with
   | nil =>
     cases last with
@@ -213,18 +259,20 @@ theorem cms_accept_implies {C : Crypto} (H : Alg → Bytes → Bytes) (sd : Sign
       (skip = true → content = none) ∧
       (skip = false → ∃ c, content = some c ∧ Effective sd.content ext c) ∧
       sd.signers.getLast? = some si ∧ si ∈ sd.signers ∧
-      SignerOK H content sd.certs si cert ∧
-      ∀ si' ∈ sd.signers, ∃ cert', SignerOK H content sd.certs si' cert' := by
-  unfold verifySignedData at h
+      SignerOK H sd.contentType content sd.certs si cert ∧
+      ∀ si' ∈ sd.signers, ∃ cert', SignerOK H sd.contentType content sd.certs si' cert' := by
+  unfold verifySignedData verifySignedDataWith at h
   split at h
   · rename_i content hc
-    obtain ⟨h1, h2, h3⟩ := verifyAll_ok H content skip sd.certs sd.badCerts sd.signers none (cert, si) h
+    obtain ⟨h1, h2, h3⟩ := verifyAll_ok H (some sd.contentType) content skip sd.certs sd.badCerts sd.signers none (cert, si) h
     have hne : sd.signers ≠ [] := by
       intro e
       have := h2 e
       cases this
     obtain ⟨hl, hv⟩ := h3 hne
-    refine ⟨if skip then none else some content, ?_, ?_, hl, List.mem_of_getLast? hl, signer_ok H content skip _ _ _ hv, ?_⟩
+    obtain ⟨hv, hct⟩ := verifyOne_ok H _ content skip _ _ _ hv
+    refine ⟨if skip then none else some content, ?_, ?_, hl, List.mem_of_getLast? hl,
+      ⟨signer_ok H content skip _ _ _ hv, hct _ rfl⟩, ?_⟩
     · intro hs; simp [hs]
     · intro hs
       subst hs
@@ -254,7 +302,8 @@ theorem cms_accept_implies {C : Crypto} (H : Alg → Bytes → Bytes) (sd : Sign
           · cases hc
     · intro s hs
       obtain ⟨c', hv'⟩ := h1 s hs
-      exact ⟨c', signer_ok H content skip _ _ _ hv'⟩
+      obtain ⟨hv', hct'⟩ := verifyOne_ok H _ content skip _ _ _ hv'
+      exact ⟨c', signer_ok H content skip _ _ _ hv', hct' _ rfl⟩
   all_goals cases h
 
 /-- the same with a `SigScheme`: the signature clauses read `S.verify cert.pub (H alg …) sig` -/
@@ -266,7 +315,7 @@ theorem cms_accept_implies_scheme (S : KeyMatch.SigScheme) (kind : S.Pub → Key
       (∀ a l, si.attrs = some (a :: l) →
         getMessageDigest (a :: l) = .ok (H alg c) ∧ S.verify cert.pub (H alg si.attrsBytes) si.sig = true) ∧
       (si.attrs.getD [] = [] → S.verify cert.pub (H alg c) si.sig = true) := by
-  obtain ⟨content, _, h2, _, hm, ⟨alg, ha, hf, hw, hn⟩, _⟩ := cms_accept_implies H sd ext false cert si h
+  obtain ⟨content, _, h2, _, hm, ⟨⟨alg, ha, hf, hw, hn⟩, _⟩, _⟩ := cms_accept_implies H sd ext false cert si h
   obtain ⟨c, rfl, he⟩ := h2 rfl
   refine ⟨c, alg, he, hm, ha, hf, ?_, ?_⟩
   · intro a l hal
@@ -290,7 +339,7 @@ theorem effective_unique (emb ext : Option Bytes) (c c' : Bytes) (h : Effective 
 theorem cms_external_embedded_must_agree {C : Crypto} (H : Alg → Bytes → Bytes) (sd : SignedData C) (c e : Bytes)
     (hc : sd.content = some c) (hne : e ≠ c) :
     verifySignedData H sd (some e) false = .err "content-mismatch" := by
-  simp [verifySignedData, resolveContent, hc, hne]
+  simp [verifySignedData, verifySignedDataWith, resolveContent, hc, hne]
 
 /-- **cms_content_change_rejected.**  Two structures with the same signer infos and certificates (e.g. the same
     detached blob with two external contents, or one blob and a copy whose embedded content was altered) are both
@@ -307,8 +356,8 @@ theorem cms_content_change_rejected {C : Crypto} (H : Alg → Bytes → Bytes) (
     si' = si ∧ cert' = cert ∧ si.attrs.getD [] = [] ∧
     ∃ alg, si.digestAlg = some alg ∧ H alg c ≠ H alg c' ∧
       SigAccepts C cert.pub alg si.sigAlg (H alg c) si.sig ∧ SigAccepts C cert.pub alg si.sigAlg (H alg c') si.sig := by
-  obtain ⟨k, _, h2, hl, _, ⟨alg, ha, hf, hw, hn⟩, _⟩ := cms_accept_implies H sd ext false cert si h
-  obtain ⟨k', _, h2', hl', _, ⟨alg', ha', hf', hw', hn'⟩, _⟩ := cms_accept_implies H sd' ext' false cert' si' h'
+  obtain ⟨k, _, h2, hl, _, ⟨⟨alg, ha, hf, hw, hn⟩, _⟩, _⟩ := cms_accept_implies H sd ext false cert si h
+  obtain ⟨k', _, h2', hl', _, ⟨⟨alg', ha', hf', hw', hn'⟩, _⟩, _⟩ := cms_accept_implies H sd' ext' false cert' si' h'
   obtain ⟨c0, rfl, he0⟩ := h2 rfl
   obtain ⟨c0', rfl, he0'⟩ := h2' rfl
   have e1 := effective_unique _ _ _ _ he he0
@@ -360,7 +409,7 @@ theorem cms_attr_change_rejected {C : Crypto} (H : Alg → Bytes → Bytes) (sd'
     (hcf : H alg si'.attrsBytes = H alg si.attrsBytes → si'.attrsBytes = si.attrsBytes) :
     SigAccepts C cert.pub alg si.sigAlg (H alg si'.attrsBytes) si.sig ∧
     H alg si'.attrsBytes ≠ H alg si.attrsBytes := by
-  obtain ⟨_, _, _, _, _, ⟨alg', ha', _, hw, _⟩, _⟩ := cms_accept_implies H sd' ext skip cert si' h'
+  obtain ⟨_, _, _, _, _, ⟨⟨alg', ha', _, hw, _⟩, _⟩, _⟩ := cms_accept_implies H sd' ext skip cert si' h'
   rw [halg'] at ha'; injection ha' with ha'; subst ha'
   obtain ⟨_, _, _, hs⟩ := hw a l hattrs
   rw [hsig, hsa] at hs
@@ -460,7 +509,7 @@ theorem cms_cert_swap {C : Crypto} (H : Alg → Bytes → Bytes) (sd' : SignedDa
     ∃ alg c, si.digestAlg = some alg ∧ Effective sd'.content ext c ∧
       (si.attrs.getD [] = [] → SigAccepts C rogue.pub alg si.sigAlg (H alg c) si.sig) ∧
       (si.attrs.getD [] ≠ [] → SigAccepts C rogue.pub alg si.sigAlg (H alg si.attrsBytes) si.sig) := by
-  obtain ⟨_, _, h2, _, _, ⟨alg, ha, hf, hw, hn⟩, _⟩ := cms_accept_implies H sd' ext false cert' si h'
+  obtain ⟨_, _, h2, _, _, ⟨⟨alg, ha, hf, hw, hn⟩, _⟩, _⟩ := cms_accept_implies H sd' ext false cert' si h'
   obtain ⟨c, rfl, he⟩ := h2 rfl
   rw [hfind] at hf
   injection hf with hf
@@ -480,19 +529,19 @@ theorem cms_cert_swap {C : Crypto} (H : Alg → Bytes → Bytes) (sd' : SignedDa
 theorem cms_cert_found_by_issuer_and_serial {C : Crypto} (H : Alg → Bytes → Bytes) (sd : SignedData C) (ext : Option Bytes)
     (skip : Bool) (cert : Cert C) (si : SignerInfo C) (h : verifySignedData H sd ext skip = .ok (cert, si)) :
     cert ∈ sd.certs ∧ cert.issuer = si.issuer ∧ cert.serial = si.serial := by
-  obtain ⟨_, _, _, _, _, ⟨_, _, hf, _, _⟩, _⟩ := cms_accept_implies H sd ext skip cert si h
+  obtain ⟨_, _, _, _, _, ⟨⟨_, _, hf, _, _⟩, _⟩, _⟩ := cms_accept_implies H sd ext skip cert si h
   exact findCert_some _ _ _ _ hf
 
 /-- every signer info is checked, not only the reported one: one bad signer info makes the whole structure fail -/
 theorem cms_all_signers_checked {C : Crypto} (H : Alg → Bytes → Bytes) (sd : SignedData C) (ext : Option Bytes) (skip : Bool)
     (cert : Cert C) (si : SignerInfo C) (h : verifySignedData H sd ext skip = .ok (cert, si)) :
     ∀ si' ∈ sd.signers, ∃ c content, verifySignerInfo H content skip sd.certs si' = .ok c := by
-  unfold verifySignedData at h
+  unfold verifySignedData verifySignedDataWith at h
   split at h
   · rename_i content _
     intro s hs
-    obtain ⟨c, hc⟩ := (verifyAll_ok H content skip sd.certs sd.badCerts sd.signers none (cert, si) h).1 s hs
-    exact ⟨c, content, hc⟩
+    obtain ⟨c, hc⟩ := (verifyAll_ok H _ content skip sd.certs sd.badCerts sd.signers none (cert, si) h).1 s hs
+    exact ⟨c, content, (verifyOne_ok H _ content skip _ _ _ hc).1⟩
   all_goals cases h
 
 /-- no signer infos: "not signed" (after the content rule), never success -/
@@ -529,12 +578,104 @@ theorem cms_chain_accept_implies {C : Crypto} (H : Alg → Bytes → Bytes) (cha
 
 /-! ### stated gaps: what the verifier does *not* check (these are theorems about the code as it is) -/
 
-/-- **cms_contenttype_unchecked.**  The verdict does not depend on the eContentType: neither is it digested, nor
-    is the signed `contentType` attribute compared with it (RFC 5652 section 5.6 step: "the content-type attribute
-    value MUST match the SignedData encapContentInfo eContentType value" is not implemented). -/
+/-- **cms_contenttype_unchecked** (finding F31, about the code *before* the fix, `verifySignedDataOrig`).  The
+    verdict did not depend on the eContentType: neither is it digested, nor was the signed `contentType` attribute
+    compared with it (RFC 5652 section 5.3: "the content-type attribute value MUST match the SignedData
+    encapContentInfo eContentType value"). -/
 theorem cms_contenttype_unchecked {C : Crypto} (H : Alg → Bytes → Bytes) (sd : SignedData C) (ct' : Bytes)
     (ext : Option Bytes) (skip : Bool) :
-    verifySignedData H { sd with contentType := ct' } ext skip = verifySignedData H sd ext skip := rfl
+    verifySignedDataOrig H { sd with contentType := ct' } ext skip = verifySignedDataOrig H sd ext skip := rfl
+
+/-- what a successful `getContentType` says about the attribute list: the first contentType attribute's value set
+    is exactly one OBJECT IDENTIFIER element with content octets `ct` -/
+theorem getContentType_ok (l : List Attr) (ct : Bytes) (h : getContentType l = .ok ct) :
+    ∃ a, l.find? (fun a => a.oid == oidContentType) = some a ∧ a ∈ l ∧ a.oid = oidContentType ∧
+      a.values.bytes = tlv 0x06 ct ∧ oidOK ct = true := by
+  unfold getContentType at h
+  split at h
+  · cases h
+  · rename_i a hf
+    refine ⟨a, hf, List.mem_of_find?_eq_some hf, by simpa using List.find?_some hf, ?_⟩
+    split at h
+    · rename_i t c rest hu
+      split at h
+      · cases h
+      · rename_i ht
+        split at h
+        · cases h
+        · rename_i ho
+          split at h
+          · cases h
+          · rename_i hr
+            injection h with h
+            subst h
+            obtain ⟨e, _, _⟩ := untlv_inv _ _ _ _ hu
+            have ht' : t = 0x06 := by simpa using ht
+            have hr' : rest = [] := by simpa using hr
+            subst ht'; subst hr'
+            exact ⟨by simpa using e, by simpa using ho⟩
+    all_goals cases h
+
+/-- **cms_contenttype_bound** (fix F31).  If `SignedData.Verify` reports success, then every signer info that has
+    authenticated attributes carries a contentType attribute – inside the attribute bytes its signature value was
+    checked over – whose single value is the eContentType of the structure. -/
+theorem cms_contenttype_bound {C : Crypto} (H : Alg → Bytes → Bytes) (sd : SignedData C) (ext : Option Bytes) (skip : Bool)
+    (cert : Cert C) (si : SignerInfo C) (h : verifySignedData H sd ext skip = .ok (cert, si)) :
+    ∀ si' ∈ sd.signers, ∀ a l, si'.attrs = some (a :: l) →
+      getContentType (a :: l) = .ok sd.contentType ∧
+      ∃ x, x ∈ a :: l ∧ x.oid = oidContentType ∧ x.values.bytes = tlv 0x06 sd.contentType := by
+  obtain ⟨_, _, _, _, _, _, hall⟩ := cms_accept_implies H sd ext skip cert si h
+  intro s hs a l hal
+  obtain ⟨_, _, hct⟩ := hall s hs
+  have hg := hct a l hal
+  obtain ⟨x, _, hm, ho, hv, _⟩ := getContentType_ok _ _ hg
+  exact ⟨hg, x, hm, ho, hv⟩
+
+/-- **cms_contenttype_change_rejected.**  A structure accepted with eContentType `sd.contentType`, whose reported (or
+    any) signer info has authenticated attributes, is not accepted any more once the eContentType is changed and
+    everything else – attributes, signature – is left as it was. -/
+theorem cms_contenttype_change_rejected {C : Crypto} (H : Alg → Bytes → Bytes) (sd : SignedData C) (ct' : Bytes)
+    (ext ext' : Option Bytes) (skip skip' : Bool) (cert : Cert C) (si : SignerInfo C)
+    (h : verifySignedData H sd ext skip = .ok (cert, si))
+    (s : SignerInfo C) (hs : s ∈ sd.signers) (a : Attr) (l : List Attr) (hattrs : s.attrs = some (a :: l))
+    (hne : ct' ≠ sd.contentType) :
+    ∀ p, verifySignedData H { sd with contentType := ct' } ext' skip' ≠ .ok p := by
+  intro p h'
+  have b := (cms_contenttype_bound H sd ext skip cert si h s hs a l hattrs).1
+  have b' := (cms_contenttype_bound H { sd with contentType := ct' } ext' skip' p.1 p.2 h' s hs a l hattrs).1
+  rw [b] at b'
+  injection b' with b'
+  exact hne b'.symm
+
+theorem verifyOne_noattrs {C : Crypto} (H : Alg → Bytes → Bytes) (t t' : Bytes) (content : Bytes) (skip : Bool)
+    (certs : List (Cert C)) (si : SignerInfo C) (hn : si.attrs.getD [] = []) :
+    verifyOne H (some t) content skip certs si = verifyOne H (some t') content skip certs si := by
+  simp [verifyOne, ctypeStage, hn]
+
+theorem verifyAll_noattrs {C : Crypto} (H : Alg → Bytes → Bytes) (t t' : Bytes) (content : Bytes) (skip : Bool)
+    (certs : List (Cert C)) (bad : Bool) (l : List (SignerInfo C)) (last : Option (Cert C × SignerInfo C))
+    (hn : ∀ si ∈ l, si.attrs.getD [] = []) :
+    verifyAll H (some t) content skip certs bad l last = verifyAll H (some t') content skip certs bad l last := by
+  induction l generalizing last with
+  | nil => cases last <;> rfl
+  | cons si rest ih =>
+    simp only [verifyAll]
+    rw [verifyOne_noattrs H t t' content skip certs si (hn si (by simp))]
+    split
+    · exact ih _ (fun s hs => hn s (by simp [hs]))
+    all_goals rfl
+
+/-- **cms_contenttype_unprotected_without_attrs** (what the code does, and what PKCS#7 defines, when no signer info has
+    authenticated attributes): the signature value covers the content octets only, nothing names the content type, and
+    the verdict does not depend on the eContentType – also after fix F31. -/
+theorem cms_contenttype_unprotected_without_attrs {C : Crypto} (H : Alg → Bytes → Bytes) (sd : SignedData C) (ct' : Bytes)
+    (ext : Option Bytes) (skip : Bool) (hn : ∀ si ∈ sd.signers, si.attrs.getD [] = []) :
+    verifySignedData H { sd with contentType := ct' } ext skip = verifySignedData H sd ext skip := by
+  unfold verifySignedData verifySignedDataWith
+  simp only
+  split
+  · exact verifyAll_noattrs H _ _ _ _ _ _ _ _ hn
+  all_goals rfl
 
 /-- with `skipDigests` and no authenticated attributes the signature value is not examined at all -/
 theorem cms_skip_noattrs_signature_unverified {C : Crypto} (H : Alg → Bytes → Bytes) (content : Bytes) (certs : List (Cert C))
@@ -571,30 +712,30 @@ def resCls {α : Type} : Res α → String
 
 /-- the flags `Relic.Tsa.Token` records about a SignedData value used as a time-stamp token, computed by the
     container model: `mdOK` = no signer info fails the messageDigest comparison, `sigOK` = every signer info
-    passes or fails only that comparison -/
+    passes (signature and, since fix F31, contentType binding) or fails only that comparison -/
 def toToken {C : Crypto} (H : Alg → Bytes → Bytes) (sd : SignedData C) (serial tsa : Nat) (ctypeTst : Bool)
     (content : Tsa.Content) (sigTime : Option (Option Int)) : Tsa.Token :=
   let c := sd.content.getD []
   { serial := serial, ctypeTst := ctypeTst, nSigners := sd.signers.length,
     sigOK := sd.signers.all (fun si =>
-      (verifySignerInfo H c false sd.certs si).isOk || resCls (verifySignerInfo H c false sd.certs si) == "digest"),
+      (verifyOne H (some sd.contentType) c false sd.certs si).isOk || resCls (verifyOne H (some sd.contentType) c false sd.certs si) == "digest"),
     content := content, sigTime := sigTime, tsa := tsa,
-    mdOK := sd.signers.all (fun si => resCls (verifySignerInfo H c false sd.certs si) != "digest") }
+    mdOK := sd.signers.all (fun si => resCls (verifyOne H (some sd.contentType) c false sd.certs si) != "digest") }
 
 theorem isOk_ok {α : Type} (a : α) : (Res.ok a).isOk = true := rfl
 theorem isOk_err {α : Type} (e : String) : (Res.err e : Res α).isOk = false := rfl
 theorem isOk_panic {α : Type} (e : String) : (Res.panic e : Res α).isOk = false := rfl
 theorem isOk_diverge {α : Type} : (Res.diverge : Res α).isOk = false := rfl
 
-theorem verifyAll_isOk {C : Crypto} (H : Alg → Bytes → Bytes) (content : Bytes) (skip : Bool) (certs : List (Cert C))
+theorem verifyAll_isOk {C : Crypto} (H : Alg → Bytes → Bytes) (ct : Option Bytes) (content : Bytes) (skip : Bool) (certs : List (Cert C))
     (bad : Bool) (l : List (SignerInfo C)) (last : Option (Cert C × SignerInfo C)) :
-    (verifyAll H content skip certs bad l last).isOk =
-      (l.all (fun si => (verifySignerInfo H content skip certs si).isOk) && (!l.isEmpty || last.isSome)) := by
+    (verifyAll H ct content skip certs bad l last).isOk =
+      (l.all (fun si => (verifyOne H ct content skip certs si).isOk) && (!l.isEmpty || last.isSome)) := by
   induction l generalizing last with
   | nil => cases last <;> simp [verifyAll, isOk_ok, isOk_err]
   | cons si rest ih =>
     simp only [verifyAll]
-    cases hv : verifySignerInfo H content skip certs si with
+    cases hv : verifyOne H ct content skip certs si with
     | ok cert => simp [ih, hv, isOk_ok]
     | err e => simp [hv, isOk_err]
     | panic s => simp [hv, isOk_panic]
@@ -606,7 +747,7 @@ set_option linter.unusedSimpArgs false in
 theorem cms_token_abstraction {C : Crypto} (H : Alg → Bytes → Bytes) (sd : SignedData C) (serial tsa : Nat) (ctypeTst : Bool)
     (content : Tsa.Content) (sigTime : Option (Option Int)) (hc : content = .absent ↔ sd.content = none) :
     (Tsa.p7Verify (toToken H sd serial tsa ctypeTst content sigTime)).isOk = (verifySignedData H sd none false).isOk := by
-  unfold verifySignedData Tsa.p7Verify
+  unfold verifySignedData verifySignedDataWith Tsa.p7Verify
   cases hemb : sd.content with
   | none =>
     have : content = .absent := hc.mpr hemb
@@ -620,23 +761,23 @@ theorem cms_token_abstraction {C : Crypto} (H : Alg → Bytes → Bytes) (sd : S
       simp only [List.length_cons, Nat.add_one_ne_zero, if_false, List.isEmpty_cons, Bool.not_false, Bool.true_or, Bool.and_true,
         Option.isSome_none]
       generalize hP : (si :: rest) = l
-      by_cases hall : l.all (fun si => (verifySignerInfo H c false sd.certs si).isOk) = true
-      · have h1 : l.all (fun si => resCls (verifySignerInfo H c false sd.certs si) != "digest") = true := by
+      by_cases hall : l.all (fun si => (verifyOne H (some sd.contentType) c false sd.certs si).isOk) = true
+      · have h1 : l.all (fun si => resCls (verifyOne H (some sd.contentType) c false sd.certs si) != "digest") = true := by
           rw [List.all_eq_true] at hall ⊢
           intro x hx
           have := hall x hx
-          cases hv : verifySignerInfo H c false sd.certs x <;> simp [hv, isOk_ok, isOk_err, isOk_panic, isOk_diverge, resCls] at this ⊢
-        have h2 : l.all (fun si => (verifySignerInfo H c false sd.certs si).isOk ||
-            resCls (verifySignerInfo H c false sd.certs si) == "digest") = true := by
+          cases hv : verifyOne H (some sd.contentType) c false sd.certs x <;> simp [hv, isOk_ok, isOk_err, isOk_panic, isOk_diverge, resCls] at this ⊢
+        have h2 : l.all (fun si => (verifyOne H (some sd.contentType) c false sd.certs si).isOk ||
+            resCls (verifyOne H (some sd.contentType) c false sd.certs si) == "digest") = true := by
           rw [List.all_eq_true] at hall ⊢
           intro x hx
           simp [hall x hx]
         simp [h1, h2, hall, isOk_ok, isOk_err, isOk_panic, isOk_diverge]
-      · have hall' : l.all (fun si => (verifySignerInfo H c false sd.certs si).isOk) = false := by simpa using hall
+      · have hall' : l.all (fun si => (verifyOne H (some sd.contentType) c false sd.certs si).isOk) = false := by simpa using hall
         rw [hall']
-        by_cases h1 : l.all (fun si => resCls (verifySignerInfo H c false sd.certs si) != "digest") = true
-        · by_cases h2 : l.all (fun si => (verifySignerInfo H c false sd.certs si).isOk ||
-              resCls (verifySignerInfo H c false sd.certs si) == "digest") = true
+        by_cases h1 : l.all (fun si => resCls (verifyOne H (some sd.contentType) c false sd.certs si) != "digest") = true
+        · by_cases h2 : l.all (fun si => (verifyOne H (some sd.contentType) c false sd.certs si).isOk ||
+              resCls (verifyOne H (some sd.contentType) c false sd.certs si) == "digest") = true
           · exfalso
             apply hall
             rw [List.all_eq_true] at h1 h2 ⊢
@@ -647,10 +788,10 @@ theorem cms_token_abstraction {C : Crypto} (H : Alg → Bytes → Bytes) (sd : S
             rcases b with b | b
             · exact b
             · exact absurd b a
-          · have : (l.all (fun si => (verifySignerInfo H c false sd.certs si).isOk ||
-              resCls (verifySignerInfo H c false sd.certs si) == "digest")) = false := by simpa using h2
+          · have : (l.all (fun si => (verifyOne H (some sd.contentType) c false sd.certs si).isOk ||
+              resCls (verifyOne H (some sd.contentType) c false sd.certs si) == "digest")) = false := by simpa using h2
             simp [h1, this, isOk_ok, isOk_err, isOk_panic, isOk_diverge]
-        · have : (l.all (fun si => resCls (verifySignerInfo H c false sd.certs si) != "digest")) = false := by simpa using h1
+        · have : (l.all (fun si => resCls (verifyOne H (some sd.contentType) c false sd.certs si) != "digest")) = false := by simpa using h1
           simp [this, isOk_ok, isOk_err, isOk_panic, isOk_diverge]
 
 
@@ -721,9 +862,19 @@ example : cls (verifySignedData toyH { toySD none (toySIA [1, 2, 3]) with certs 
 example : cls (verifySignedData toyH { toySD none (toySIA [1, 2, 3]) with signers := [] } (some [1, 2, 3]) false) = "not-signed" := by decide
 example : cls (verifySignedData toyH { toySD none (toySIA [1, 2, 3]) with signers := [toySIA [1, 2, 3], toySIA [5]] } (some [1, 2, 3]) false) = "digest" := by decide
 example : cls (verifySignedData toyH { toySD none (toySIA [1, 2, 3]) with signers := [toySIA [5], toySIA [1, 2, 3]] } (some [1, 2, 3]) false) = "digest" := by decide
--- the gap: eContentType changed, attributes (naming the old type) untouched: still accepted
-example : (verifySignedData toyH { toySD none (toySIA [1, 2, 3]) with contentType := [0x2a, 0x04] } (some [1, 2, 3]) false).isOk = true := by
+-- F31: eContentType changed, attributes (naming the old type) untouched: accepted before the fix, rejected now;
+-- without attributes nothing names the type and the change goes unnoticed (cms_contenttype_unprotected_without_attrs)
+example : (verifySignedDataOrig toyH { toySD none (toySIA [1, 2, 3]) with contentType := [0x2a, 0x04] } (some [1, 2, 3]) false).isOk = true := by
   decide
+example : cls (verifySignedData toyH { toySD none (toySIA [1, 2, 3]) with contentType := [0x2a, 0x04] } (some [1, 2, 3]) false)
+    = "ctype-mismatch" := by decide
+example : (verifySignedData toyH { toySD none (toySI [1, 2, 3]) with contentType := [0x2a, 0x04] } (some [1, 2, 3]) false).isOk = true := by
+  decide
+-- contentType attribute missing from the (properly signed) attributes: rejected
+example : cls (verifySignedData toyH (toySD none
+    ⟨3, [0xaa], [0x01], some .sha256, some [mdAttr (toyH .sha256 [1])], tlv 0x31 (attrsContent [mdAttr (toyH .sha256 [1])]), .rsa none,
+      toyScheme.sign (7 : Nat) (toyH .sha256 (tlv 0x31 (attrsContent [mdAttr (toyH .sha256 [1])])))⟩) (some [1]) false)
+    = "no-ct-attr" := by decide
 -- the hypotheses of cms_content_change_rejected are satisfiable only through its conclusion: with the toy scheme no
 -- signature is valid for two digests, so the two acceptances cannot coexist
 example : ¬ ((verifySignedData toyH (toySD none (toySI [1])) (some [1]) false).isOk = true ∧
